@@ -107,7 +107,7 @@ func caseKinds(p *parserFns, b *ssa.BasicBlock) (kinds []string, ok bool) {
 	set := map[string]bool{}
 	for _, f := range openingFounds(p) {
 		for _, e := range ir.EdgesWhere(fn, f, true) {
-			if e.To == b || ir.Reach(e.To, nil, nil)[b] {
+			if e.To == b || ir.ReachVia(e.From, e.To, nil, nil)[b] {
 				blockedE[ir.Edge{From: e.From, To: e.To}] = true
 				if k, isK := kindArg(f); isK {
 					set[k] = true
@@ -205,7 +205,7 @@ func par1(c *Ctx) {
 		if v, isC := ir.ConstBool(r.Results[0]); isC && v {
 			dom := false
 			for _, call := range callsTo(p.canAtom, p.is) {
-				if ir.HoldsAt(call, true, r.Block()) {
+				if r.Holds(call, true) {
 					dom = true
 				}
 			}
